@@ -95,7 +95,9 @@ def make_case(rng, with_faults):
         shape["obj"] = f"as:{len(meta)}sec:{'raw' if any(m['raw'] and not m['data'] for m in meta) else 'text'}{':data' if any(m['data'] for m in meta) else ''}"
         allsec = [m["name"] for m in meta]
         code = [m["name"] for m in meta if not m["data"]]
-    files["in.o"] = elf
+    names = gen.pick_names(rng)
+    OBJ, RULE = names["bin"], names["rule"]
+    files[OBJ] = elf
     data = [s for s in allsec if s not in code]
     # ---- the sections list, in every shape the property names
     c = rng.randrange(12)
@@ -141,7 +143,7 @@ def make_case(rng, with_faults):
             doc = {"config": {"sections": list(sections)}, **doc}
     if sections is None and "config" in doc:
         doc["config"].pop("sections", None)
-    files["rule.yaml"] = gen.dump_yaml(doc)
+    files[RULE] = gen.dump_yaml(doc)
     # ---- history prefix: what a leak would carry over
     prefix = []
     pclass = "none"
@@ -166,7 +168,7 @@ def make_case(rng, with_faults):
             pc = "invalid-sections-type"
         rel = f"prefix{i}.yaml"
         files[rel] = gen.dump_yaml(pdoc)
-        pin = "in.o"
+        pin = OBJ
         if rng.random() < 0.3:
             src2, _m2 = gen.gen_asm_source(rng)
             e2 = gen.assemble(src2)
@@ -180,17 +182,17 @@ def make_case(rng, with_faults):
         src0, _m0 = gen.gen_asm_source(rng, sections=[m["name"] for m in meta][:4] if not shape["obj"].startswith("real") else None)
         e0 = gen.assemble(src0)
         if e0 is not None and e0 != elf:
-            files["in.o"] = e0
-            prefix.append({"op": "match", "rule": "rule.yaml", "input": "in.o", "type": "binary", "ret": "stream"})
-            prefix.append({"op": "write", "path": "in.o", "content": util.enc_content(elf)})
+            files[OBJ] = e0
+            prefix.append({"op": "match", "rule": RULE, "input": OBJ, "type": "binary", "ret": "stream"})
+            prefix.append({"op": "write", "path": OBJ, "content": util.enc_content(elf)})
             pclass = "same-path-rebuilt" if pclass == "none" else pclass + ",same-path-rebuilt"
     shape["prefix"] = pclass
     only_addr = rng.random() < 0.3
     ops = list(prefix)
     main = [
-        {"op": "match", "rule": "rule.yaml", "input": "in.o", "type": "binary", "ret": "stream", "_main": True},
-        {"op": "match", "rule": "rule.yaml", "input": "in.o", "type": "binary", "ret": "list", "search": "all", "only_addr": only_addr, "_main": True},
-        {"op": "match", "rule": "rule.yaml", "input": "in.o", "type": "binary", "ret": "bool", "search": "first", "_main": True},
+        {"op": "match", "rule": RULE, "input": OBJ, "type": "binary", "ret": "stream", "_main": True},
+        {"op": "match", "rule": RULE, "input": OBJ, "type": "binary", "ret": "list", "search": "all", "only_addr": only_addr, "_main": True},
+        {"op": "match", "rule": RULE, "input": OBJ, "type": "binary", "ret": "bool", "search": "first", "_main": True},
     ]
     if with_faults and rng.random() < 0.5:
         f = rng.choice([
@@ -208,7 +210,8 @@ def make_case(rng, with_faults):
     else:
         shape["fault"] = "none"
     ops += main
-    return {"files": {k: util.enc_content(v) for k, v in files.items()}, "ops": ops, "extra": {"shape": shape}}
+    shape["names"] = f"{'plain' if OBJ in ('in.o', 'in.bin') else 'odd'}"
+    return {"files": {k: util.enc_content(v) for k, v in files.items()}, "ops": ops, "extra": {"shape": shape, "rule_file": RULE}}
 
 
 def _rule_sections(files, rel):
@@ -329,7 +332,7 @@ def run_one(index, seed, runner, tier, opts):
         violations.append({"case": c, "violation": v})
     sample = None
     if index % 16 == 2:
-        sample = {"run": index, "seed": seed, "shape": shape, "rule": util.dec_content(case["files"]["rule.yaml"]).decode()[:400], "objdump_argv_seen": info["argv"][:5],
+        sample = {"run": index, "seed": seed, "shape": shape, "rule": util.dec_content(case["files"][case["extra"]["rule_file"]]).decode()[:400], "objdump_argv_seen": info["argv"][:5],
                   "ops": [{k: v for k, v in o.items() if k in ("rule", "input", "ret", "search")} for o in case["ops"]], "classes": info["classes"]}
     return {"evals": info["checked"], "counters": counters, "distinct": sorted(distinct), "violations": violations, "digest": info["digest"],
             "sample": sample, "vtime": info["vtime"], "warnings": [f"seam-escape run {index}: {e}" for e in info["escapes"][:2]]}
